@@ -9,18 +9,22 @@ M = "NetqasmVerif.Props.C02"
 THEOREMS = [(M, "NQ.C02." + n) for n in [
     "regByte_eq_spec", "le32_eq_spec", "impl_eq_spec", "encodes_when_inRange", "le32_value", "sub_header",
     "core_table_pinned", "vanilla_table_pinned", "nv_table_pinned", "reids_table_pinned",
-    "layout_probes_match", "shapes_fit"]]
-TRANSLATORS = ["instr_table"]
-LEANCHECK_EXTRA = ["NetqasmVerif.Props.WireObligations"]
-LEVEL_TEXT = "Lean theorems: whenever an instruction encodes, its bytes equal an independently written 7-byte spec encoding (opcode, operands in declared order, register byte = bank | idx<<2, LE two's complement, zero padding) for ALL operand values; subroutine header lemma; live tables equal the pinned wire table and live byte layout equals the model's (kernel-decided from probes)."
-LEVEL_NOTE = 'Trusted: Lean kernel; the pinned table in Model/WireSpec.lean (transcribed from the pinned tree); translator + harness; ctypes bitwise linearity.'
+    "layout_probes_match", "shapes_fit", "cmd_layouts_canonical", "cmd_layouts_cover",
+    "generic_pack_eq_model", "generic_unpack_eq_model"]]
+TRANSLATORS = ["instr_table", "cmd_layouts"]
+LEANCHECK_EXTRA = ["NetqasmVerif.Props.WireObligations", "NetqasmVerif.Props.CmdLayoutObligations"]
+LEVEL_TEXT = "Lean theorems: whenever an instruction encodes, its bytes equal an independently written 7-byte spec encoding (opcode, operands in declared order, register byte = bank | idx<<2, LE two's complement, zero padding) for ALL operand values; subroutine header lemma; live tables equal the pinned wire table; the live ctypes struct layout of every class (leaf bit ranges from the ctypes descriptors, operand component per leaf) is kernel-decided to be the canonical sequential layout (cmd_layouts_canonical) and packing/unpacking through the generic ctypes struct model with that layout equals the model codec for ALL operand values / byte strings (generic_pack_eq_model, generic_unpack_eq_model); single-bit behavioural probes on top."
+LEVEL_NOTE = 'Trusted: Lean kernel; the pinned table in Model/WireSpec.lean (transcribed from the pinned tree); translators + harness; ctypes stores a field at the offset / bit range its descriptor reports, two\'s complement, little endian (no linearity assumption: the layout is read from the descriptors and the equality with the model codec is a theorem; the single-bit probes validate the descriptors behaviourally).'
 TECHNIQUE = 'Lean 4 proof + kernel-decided generated obligations (pinned table, single-bit layout probes) + differential correspondence'
 TRUSTED = [
     "Lean 4.33 kernel; axioms at most propext, Classical.choice, Quot.sound (audited per theorem)",
     "Model/WireSpec.lean: the pinned instruction table, transcribed once from the pinned tree "
     "(no published table is available offline) — it is the interop contract",
-    "translate/instr_table.py: rows and single-bit probes read from the live classes; ctypes "
-    "(de)serialisation is bitwise linear",
+    "translate/instr_table.py: rows and single-bit probes read from the live classes; "
+    "translate/cmd_layouts.py: struct used by each class, leaf layout from the ctypes descriptors, "
+    "operand component feeding each leaf",
+    "ctypes stores a field's value at the byte offset / bit range its descriptor reports, two's "
+    "complement, little endian (replaces the former 'bitwise linear' assumption)",
     "harness/codec.py: an independent Python reference encoder written from the statement",
 ]
 ASSUMPTIONS = ["byte layout of ctypes structures on this platform (little-endian x86-64)"]
